@@ -83,7 +83,7 @@ class CompileResult:
         return "Error when compiling" in t or "ERROR" in t or "error" in t.lower()
 
 
-def run_cli(cli, project_dir, config="isograph.config.json", extra_env=None, extra_args=(), prefix=()):
+def run_cli(cli, project_dir, config="isograph.config.json", extra_env=None, extra_args=(), prefix=(), stack_mb=None):
     env = dict(runner.BASE_ENV)
     env.update({"NO_COLOR": "1", "RUST_BACKTRACE": "0"})
     if extra_env:
@@ -91,7 +91,13 @@ def run_cli(cli, project_dir, config="isograph.config.json", extra_env=None, ext
     cmd = list(prefix) + [cli, "--config", config] + list(extra_args)
     r = CompileResult()
     r.timed_out = False
-    p = subprocess.Popen(cmd, cwd=project_dir, env=env, stdout=subprocess.PIPE, stderr=subprocess.PIPE)
+    pre = None
+    if stack_mb:
+        # sanitizer builds have much larger frames: give the main thread a stack in proportion, so that only
+        # genuinely unbounded recursion overflows it
+        def pre():
+            resource.setrlimit(resource.RLIMIT_STACK, (stack_mb << 20, stack_mb << 20))
+    p = subprocess.Popen(cmd, cwd=project_dir, env=env, stdout=subprocess.PIPE, stderr=subprocess.PIPE, preexec_fn=pre)
     try:
         out, err = p.communicate(timeout=WALL_WATCHDOG_S)
     except subprocess.TimeoutExpired:
@@ -117,6 +123,14 @@ def run_cli_timed(cli, project_dir, **kw):
         os.remove(tf)
     except (OSError, ValueError):
         r.cpu_s = 0.0
+    # /usr/bin/time is the direct child: when the compiler is killed by a signal, time exits with 128+signal
+    # (the compiler itself only ever exits 0, 1 or 101)
+    if r.signal is None and r.rc is not None and r.rc > 128:
+        try:
+            r.signal = signal.Signals(r.rc - 128).name
+            r.rc = None
+        except ValueError:
+            pass
     return r
 
 
